@@ -50,7 +50,11 @@ CLAIMED = {
    text="Machine-checked Coq theorems: for every data start and every alignment > 0 (unbounded) the padding computed by "
         "start_file_aligned satisfies (data_start + 4 + pad) mod align = 0 with pad < align, so the writer's self-check "
         "cannot fire when the padding record lands where expected; validate_extra_data accepts only data that fits 16 "
-        "bits together with the ZIP64 reservation and whose first record is complete, not ZIP64 and not a reserved id.  "
+        "bits together with the ZIP64 reservation and whose first record is complete, not ZIP64 and not a reserved id; AS THE "
+        "READER SEES IT: start_file_aligned for a stored entry on a well-behaved sink succeeds, leaves a local header whose "
+        "(patched) length fields are the true ones, and the data offset the reader's find_content computes from that header "
+        "is a multiple of the alignment (alignments 2..32768), the padding being one record accepted by the writer's own "
+        "validation.  "
         "Correspondence: extra-data programs (local-only, central-only, both, multi-record, invalid, oversize, "
         "alignments 0/1/2/4/64/4096/65535/non-powers, large_file, after prior entries, on appended archives) compared "
         "byte for byte with the writer model; oracle: data_start % align = 0 as seen by the crate's own reader and by the "
